@@ -13,8 +13,11 @@ def gen_can_desc(rng):
     """CAN schemas: any mix of widths, signed, enums, floats, nesting, arrays; big-endian only on
     byte-aligned whole-byte leaves; well-formed multiplexing; several buses."""
     desc = {"enums": [], "structs": [], "impls": []}
+    # enum names as people write them: capitalised, lower case, and lower case beginning with the letters the built-in type names
+    # begin with (i.., u.., f..): what a leaf IS must come from its type, not from how its type's name is spelled
+    enum_names = rng.sample(["E0", "Mode", "ignition", "idle_state", "fault", "flags", "unit_sel", "state"], 2)
     for i in range(rng.randint(0, 2)):
-        desc["enums"].append(gen_schema.gen_enum(rng, f"E{i}"))
+        desc["enums"].append(gen_schema.gen_enum(rng, enum_names[i]))
         desc["enums"][-1]["vals"] = [(n, v % 200) for n, v in desc["enums"][-1]["vals"]]
         seen = set(); vals = []
         for n, v in desc["enums"][-1]["vals"]:
